@@ -138,6 +138,17 @@ pub const EXEMPLARS: &[&str] = &[
     "S: A; U: 'x'; terminals A: 'a';",
     "S: A; U: x=A y=A* z=U?; terminals A: /a/;",
     "S: A* A0; A0: 'b'; terminals A: 'a'; B: 'b';",
+    // regexes one or both regex crates refuse
+    "S: A;\nterminals\nA: /(b/;\n",
+    "S: A B;\nterminals\nA: /[z-a]/;\nB: 'b';\n",
+    "S: A;\nterminals\nA: /a{2,1}/;\n",
+    "S: A;\nterminals\nA: /\\p{NoSuchClass}+/;\n",
+    "S: A;\nterminals\nA: /(?=a)ab/;\n",
+    "S: A;\nterminals\nA: /(a)\\1/;\n",
+    "S: A;\nterminals\nA: /a**/;\n",
+    "S: A;\nterminals\nA: /(?<n>a)(?<n>b)/;\n",
+    "S: A;\nterminals\nA: /*a/;\n",
+    "S: A;\nterminals\nA: /a|*/;\n",
     // reserved / implicit names in the separator position of a repetition and other odd separators
     "S: A+[STOP];\nA: Ta;\nterminals\nTa: 'a';\n",
     "S: A*[STOP] Tb;\nA: Ta;\nterminals\nTa: 'a';\nTb: 'b';\n",
@@ -345,6 +356,7 @@ pub fn random_spec(rng: &mut Rng) -> SetSpec {
         builder: if rng.chance(0.35) { 0 } else { 1 },
         gen_table: rng.below(2) as u8,
         loc_info: rng.chance(0.2),
+        fancy: rng.chance(0.2),
         ..Default::default()
     }
 }
@@ -378,6 +390,23 @@ pub fn judge(text: &str, spec: &SetSpec, origin: &str, wd: &Workdir, rep: &mut R
     match &c.outcome {
         Outcome::Panic(m) => rep.violation("C16", &sig("panic"), &format!("compiler panicked instead of returning an error: {}", m.chars().take(300).collect::<String>()), case()),
         Outcome::Err(m) if m.trim().is_empty() => rep.violation("C16", &sig("empty"), "compiler returned an error without a message", case()),
+        Outcome::Ok => {
+            // "a parser": the written parser builds its regexes with Regex::new(..).unwrap() at first use, so a regex the
+            // selected crate refuses means a parser whose every parse panics (C15) - the compiler owes a diagnostic
+            if let (Some(d), false) = (&c.dump, spec.custom_lexer) {
+                for t in &d.grammar.terminals {
+                    if let rustemo_compiler::verif::VRecognizer::Regex(r) = &t.recognizer {
+                        let anchored = format!("^(?:{})", r);
+                        let err = if spec.fancy { fancy_regex::Regex::new(&anchored).err().map(|e| e.to_string()) } else { regex::Regex::new(&anchored).err().map(|e| e.to_string()) };
+                        rep.count("accepted_regex_terminals_checked", 1);
+                        if let Some(e) = err {
+                            rep.violation("C16", &sig("invalid-regex"), &format!("compiler wrote a parser for terminal {}: /{}/ although {} refuses that regex ({}): the parser panics at its first use", t.name, r, if spec.fancy { "fancy_regex" } else { "regex" }, e.lines().last().unwrap_or("").trim()), case());
+                            break;
+                        }
+                    }
+                }
+            }
+        }
         _ => {}
     }
 }
